@@ -17,3 +17,26 @@ mut('c05-long-unknown-header-swallowed', ['C05'], 'src/decode.rs', """          
                     continue;
                 }
 """)
+# ---- C11
+mut('c11-revert-F1', ['C11'], 'src/util/key_value.rs', """        let (key, value) = s.split_once(':').unwrap_or((s, ""));
+
+        Ok(Self {
+            key: key.trim().parse()?,
+            value: value.trim(),
+        })""", """        let mut split = s.split(':').map(str::trim);
+
+        Ok(Self {
+            key: split.next().unwrap_or(s.trim()).parse()?,
+            value: split.next().unwrap_or_default(),
+        })""")
+mut('c11-flag-ne-0', ['C11'], 'src/section/general/decode.rs', "GeneralKey::EpilepsyWarning => state.epilepsy_warning = i32::parse(value)? == 1,", "GeneralKey::EpilepsyWarning => state.epilepsy_warning = i32::parse(value)? != 0,")
+mut('c11-clamp-04-05', ['C11'], 'src/section/difficulty.rs', "clamp(0.4, 3.6)", "clamp(0.5, 3.6)")
+mut('c11-sprite-overrides-bg', ['C11'], 'src/section/events/decode.rs', "if state.background_file.is_empty() {", "if true {")
+mut('c11-break-min', ['C11'], 'src/section/events/decode.rs', "let end_time = start_time.max(f64::parse(event_params)?);", "let end_time = f64::parse(event_params)?;")
+mut('c11-ar-follows-od-always', ['C11'], 'src/section/difficulty.rs', "                if !state.has_approach_rate {\n                    state.difficulty.approach_rate = state.difficulty.overall_difficulty;\n                }", "                state.difficulty.approach_rate = state.difficulty.overall_difficulty;")
+mut('c11-video-ext-case', ['C11'], 'src/section/events/decode.rs', "                        c.to_ascii_lowercase(),\n                    ];", "                        *c,\n                    ];")
+mut('c11-metadata-comment-strip', ['C11'], 'src/section/metadata.rs', "let Ok(KeyValue { key, value }) = KeyValue::parse(line) else {", "let Ok(KeyValue { key, value }) = KeyValue::parse(line.trim_comment()) else {")
+mut('c11-color-5th-accepted', ['C11'], 'src/section/colors/mod.rs', "let none = split.nth(1);", "let none = split.nth(2);")
+mut('c11-named-colour-append', ['C11'], 'src/section/colors/decode.rs', "Some(old) => old.color = color,", "Some(_) => state.custom_colors.push(CustomColor { name, color }),")
+mut('c11-unknown-value-resets', ['C11'], 'src/section/general/decode.rs', "GeneralKey::PreviewTime => state.preview_time = i32::parse(value)?,", "GeneralKey::PreviewTime => { state.preview_time = -1; state.preview_time = i32::parse(value)? }")
+mut('c11-audio-leadin-float', ['C11'], 'src/section/general/decode.rs', "GeneralKey::AudioLeadIn => state.audio_lead_in = f64::from(i32::parse(value)?),", "GeneralKey::AudioLeadIn => state.audio_lead_in = f64::parse(value)?,")
